@@ -278,3 +278,51 @@ def s_collapse_slice(ctx):
 SCENARIOS.append(Scenario("C09.rules.collapse_slice", s_collapse_slice,
                           [("onnxscript/rewriter/rules/common/_collapse_slices.py", "_check_if_redundant_slice")], kind="bounded",
                           bound="data rank <= 2, starts/ends/axes/steps with 1-2 elements, axis in -2..1; start/end/step values unbounded", trusted=TRUST, max_paths=40000))
+
+
+def s_unsqueeze_unsqueeze(ctx):
+    """UnsqueezeUnsqueeze: Unsqueeze(Unsqueeze(x, [v1]), [v2]) -> Unsqueeze(x, axes).  Theory (ONNX Unsqueeze: the axes are
+    positions in the OUTPUT): after both steps the new axes sit at v2 and at v1 (if v1 < v2) or v1 + 1 (the second
+    insertion at or before it shifts it); the fused axes must be exactly that set, for all v1, v2 >= 0."""
+    import onnx_ir as ir
+    from onnxscript.rewriter.rules.common import _basic_rules
+    I = Interp(ctx)
+    W = World(I)
+    x = W.value("x", dims=None, rt=[], dtype=ir.DataType.FLOAT)
+    v1, v2 = ctx.int("v1"), ctx.int("v2")
+    ctx.witness["v1"], ctx.witness["v2"] = v1, v2
+
+    def axes_value(tag, t):
+        kind = ["const 1-d", "const 0-d", "two elements", "unknown"][ctx.choose(4, f"{tag} is")]
+        items = [SInt(t)] if kind != "two elements" else [SInt(t), SInt(t)]
+        const = None if kind == "unknown" else W.tensor(items, ir.DataType.INT64, ndim=(0 if kind == "const 0-d" else 1))
+        v = W.value(tag, dims=None, rt=[], dtype=ir.DataType.INT64, const=const, initializer=const is not None)
+        from .c05_rules import with_producer
+        with_producer(I, v, None)
+        return v, kind
+    a1, k1 = axes_value("axes1", v1)
+    a2, k2 = axes_value("axes2", v2)
+    rule = SObj(_basic_rules.UnsqueezeUnsqueeze, "rule")
+    fired = I.truth(I.call(I.getattr(rule, "check"), [None, x, a1, a2]))
+    if not fired:
+        ctx.cover("UnsqueezeUnsqueeze.check_failed")
+        return
+    ctx.check("C05.rules.UnsqueezeUnsqueeze.fires_only_for_known_single_nonnegative_axes",
+              z3.And(z3.BoolVal(k1 in ("const 1-d", "const 0-d") and k2 in ("const 1-d", "const 0-d")), v1 >= 0, v2 >= 0), CL09)
+    made = []
+    I.models[ir.tensor] = lambda interp, v, dtype=None, **k: (made.append((list(v), dtype)) or ("tensor", len(made)))
+    r = I.call(I.getattr(rule, "rewrite"), [OpRecorder(), x, a1, a2])
+    ok = isinstance(r, Call) and r.op == "Unsqueeze" and r.args[0] is x and len(made) == 1 and len(made[0][0]) == 2 and made[0][1] == ir.DataType.INT64
+    ctx.check("C05.rules.UnsqueezeUnsqueeze.replacement_is_one_unsqueeze_of_x_with_two_axes", ok, CL09)
+    if not ok:
+        return
+    p, q = term(made[0][0][0]), term(made[0][0][1])
+    first_final = z3.If(v1 < v2, v1, v1 + 1)
+    same_set = z3.Or(z3.And(p == v2, q == first_final), z3.And(p == first_final, q == v2))
+    ctx.check("C05.rules.UnsqueezeUnsqueeze.fused_axes_are_the_final_positions_of_both_new_axes", z3.And(same_set, p != q), CL09)
+
+
+SCENARIOS.append(Scenario("C05.rules.UnsqueezeUnsqueeze", s_unsqueeze_unsqueeze,
+                          [("onnxscript/rewriter/rules/common/_basic_rules.py", "UnsqueezeUnsqueeze.check"), ("onnxscript/rewriter/rules/common/_basic_rules.py", "UnsqueezeUnsqueeze.rewrite"),
+                           ("onnxscript/rewriter/_ir_utils.py", "get_singleton_value"), ("onnxscript/rewriter/_ir_utils.py", "get_numpy_value")],
+                          trusted=["ONNX Unsqueeze: axes are positions in the output tensor"]))
